@@ -627,6 +627,30 @@ def _total_validators(chk, repo, cv):
             w = cfg.path_avoiding(cfg.entry.id, [b_.id], guards, ignore_exc=True)
             chk.ob("SIB-6", "%s asserts the type of the raw value before building the template (like its siblings)" % name, bool(guards) and w is None,
                    f.where(b_.ast), path=cfg.fmt_path(w, CV) if w else None, construct=f.ident, text="template built from unchecked value in " + name)
+    # what the shared guard admits: a validator that builds an *int* template passes the raw value on unconverted, and the int template truncates a
+    # number it is given (int(value)).  So the guard in front of an int template admits no float: 2.7 balls must be refused, not become 2.
+    ga = cv.methods.get("_assert_int_float_template")
+    chk.need(ga is not None, "SIB-6", "the shared raw-type guard of the numeric template validators exists", cv.methods["_validate_type_template_int"])
+    chk.analysed(ga)
+    iso = [c for c in ga.calls() if isinstance(c.func, ast.Name) and c.func.id == "isinstance" and len(c.args) == 2 and src(c.args[0]) == "item"]
+    types = set()
+    for c in iso:
+        t = c.args[1]
+        types |= {src(e) for e in (t.elts if isinstance(t, ast.Tuple) else [t])}
+    int_users = [n for n, f in sorted(cv.methods.items()) if n.startswith("_validate_type_template_")
+                 and any(call_attr(c) == "build_int_template" for c in f.calls()) and any(call_attr(c) == "_assert_int_float_template" for c in f.calls())]
+    chk.ob("SIB-6", "the raw-type guard in front of the int-valued templates (%s) admits text and whole numbers only" % ", ".join(x[15:] for x in int_users),
+           bool(iso) and bool(int_users) and types <= {"str", "int"}, ga.where(), detail="admits %s: a float would reach build_int_template and be truncated"
+           % sorted(types), construct=ga.ident, text="raw types admitted before int templates")
+    # a section that is present must be a mapping: only an absent section (None) is replaced by an empty one
+    vc = cv.methods["validate_config"]
+    chk.analysed(vc)
+    repl = [x for x in ast.walk(vc.node) if isinstance(x, ast.If) and any(isinstance(y, ast.Assign) and src(y.targets[0]) == "source" for y in x.body)]
+    from sa.cfg import canon_fact as _cf
+    ok = len(repl) == 1 and _cf(src(repl[0].test), True) == _cf("source is None", True) and not repl[0].orelse
+    chk.ob("SIB-6", "validate_config replaces the section by an empty one exactly when it is absent (None); every other non-mapping is rejected", ok,
+           vc.where(repl[0] if repl else None), detail="replaced when %s" % (src(repl[0].test) if repl else "?"), construct=vc.ident,
+           text="absent section default")
 
 
 def _pass_through_and_patterns(chk, repo, cv):
@@ -935,6 +959,8 @@ def battery():
         M("twin: suffix order MSEC first", UF, "        if time_string.endswith('MS'):\n            return int(time_string[:-2])\n\n        if time_string.endswith('MSEC'):\n            return int(time_string[:-4])\n", "        if time_string.endswith('MSEC'):\n            return int(time_string[:-4])\n\n        if time_string.endswith('MS'):\n            return int(time_string[:-2])\n", None),
         M("twin: new spec entry", Y, "    level_x: single|int|0", "    level_x: single|int|0\n    level_w: single|float(0,1)|0.5", None),
         M("unconvertible bool accepted as None", CV, "        raise self.validation_error(item, validation_failure_info, \"Cannot convert value to boolean.\", 13)\n", "", "TOTAL-12"),
+        M("numeric template guard admits floats", CV, "        if not isinstance(item, (str, int)):\n            raise self.validation_error(item, validation_failure_info, \"Template has to be string/int.\")", "        if not isinstance(item, (str, int, float)):\n            raise self.validation_error(item, validation_failure_info, \"Template has to be string/int.\")", "SIB-6"),
+        M("empty-string section treated as absent", CV, "        if source is None:\n            source = dict()\n\n        validation_failure_info = ValidationPath(parent=None,", "        if source is None or source == '':\n            source = dict()\n\n        validation_failure_info = ValidationPath(parent=None,", "SIB-6"),
         M("template_ms accepts any type", CV, "        self._assert_int_float_template(item, validation_failure_info)\n\n        # try to convert to int. if we fail it will be a template", "        # try to convert to int. if we fail it will be a template", "SIB-6"),
         M("list helper swallows 0", "mpf/core/utility_functions.py", "        if isinstance(string, str):\n            # empty string is an empty list\n            if string == '':\n                return []\n\n            # Convert commas to spaces", "        if not string:\n            return []\n        if isinstance(string, str):\n            # Convert commas to spaces", "LIST-12"),
         M("unknown-key scan stops at the first known key", CV, "                if not isinstance(k, dict) and k not in spec and k[0] != '_':\n", "                if isinstance(k, dict) or k in spec or k[0] == '_':\n                    return\n                if True:\n", "DOM-24"),
